@@ -204,13 +204,14 @@ type c03Harness struct {
 	bySig   map[solana.Signature]*gTx
 	byBHash map[string]*gBlock
 	// current server
-	loaded  []uint64
-	multi   *MultiEpoch
-	handler func(*fasthttp.RequestCtx)
-	cache   *hugecache.Cache
-	nserver int
-	caseOps []string // ops since (and including) the last server line, for replays
-	setup   []string // gen lines
+	loaded     []uint64
+	multi      *MultiEpoch
+	handler    func(*fasthttp.RequestCtx)
+	cache      *hugecache.Cache
+	nserver    int
+	serverLine string
+	caseOps    []string // ops since (and including) the last server line, for replays
+	setup      []string // gen lines
 }
 
 func (h *c03Harness) op(line, out string, nontrivial bool) {
@@ -259,6 +260,15 @@ func (h *c03Harness) execGen(line string, w []string) {
 	kv := c03KV(w[1:])
 	o := genOpts{Epoch: kv["epoch"], NBlocks: int(kv["blocks"]), MaxTx: int(kv["maxtx"]), SkipPct: int(kv["skip"]), NKeys: int(kv["nkeys"]),
 		KeySeedBase: byte(kv["base"]), LoadedPct: int(kv["loaded"]), FramePct: int(kv["frame"])}
+	for _, x := range w[1:] {
+		if strings.HasPrefix(x, "extra=") {
+			for _, a := range strings.Split(x[6:], ",") {
+				var pk solana.PublicKey
+				copy(pk[:], zz.Unhex(a))
+				o.ExtraAccounts = append(o.ExtraAccounts, pk)
+			}
+		}
+	}
 	h.setup = append(h.setup, line)
 	e := &c03Epoch{num: o.Epoch, opts: o, addrs: map[solana.PublicKey]int{}}
 	e.dir = filepath.Join(h.dir, fmt.Sprintf("e%d", o.Epoch))
@@ -372,8 +382,21 @@ func (h *c03Harness) closeServer() {
 }
 
 func (h *c03Harness) execServer(line string, w []string) {
-	h.closeServer()
 	h.caseOps = nil
+	h.serverLine = line
+	word, what := h.loadServer(w)
+	h.op(line, word, word == "ok")
+	if what != "" {
+		h.viol(what, "C03:load-failed", line)
+	}
+	if word == "ok" {
+		h.s.Count(fmt.Sprintf("server-with-%d-epochs", len(h.loaded)))
+	}
+}
+
+// loadServer (re-)creates the server described by a server line: fresh cache, freshly loaded Epoch objects
+func (h *c03Harness) loadServer(w []string) (string, string) {
+	h.closeServer()
 	h.nserver++
 	sigonly := len(w) > 2 && w[2] == "sigonly"
 	h.cache = newVerifCache() // one server = one cache shared by its epochs
@@ -384,24 +407,19 @@ func (h *c03Harness) execServer(line string, w []string) {
 		n, _ := strconv.ParseUint(x, 10, 64)
 		e := h.epochs[n]
 		if e == nil {
-			h.op(line, "unknown-epoch", false)
-			return
+			return "unknown-epoch", ""
 		}
 		e.le.Cache = h.cache
 		if err := e.le.load(sdir); err != nil {
-			h.op(line, "load-failed", false)
-			h.viol("an epoch indexed by index all + index gsfa does not load: "+err.Error(), "C03:load-failed", line)
-			return
+			return "load-failed", "an epoch indexed by index all + index gsfa does not load: " + err.Error()
 		}
 		if err := h.multi.AddEpoch(n, e.le.Ep); err != nil {
-			h.op(line, "add-failed", false)
-			return
+			return "add-failed", ""
 		}
 		h.loaded = append(h.loaded, n)
 	}
 	h.handler = newMultiEpochHandler(h.multi, nil)
-	h.op(line, "ok", true)
-	h.s.Count(fmt.Sprintf("server-with-%d-epochs", len(h.loaded)))
+	return "ok", ""
 }
 
 func (h *c03Harness) isLoaded(n uint64) bool {
@@ -691,6 +709,55 @@ func (h *c03Harness) execCid(line string, w []string) {
 	}
 }
 
+// history: the transactions of epoch e that mention pk, newest first
+func (e *c03Epoch) history(h *c03Harness, pk solana.PublicKey) []*gTx {
+	var out []*gTx
+	for bi := len(e.ge.Blocks) - 1; bi >= 0; bi-- {
+		b := e.ge.Blocks[bi]
+		for ti := len(b.Txs) - 1; ti >= 0; ti-- {
+			if h.mentions(b.Txs[ti], pk) {
+				out = append(out, b.Txs[ti])
+			}
+		}
+	}
+	return out
+}
+
+// expectedGsfa: what getSignaturesForAddress has to list, from the generator's ground truth alone
+func (h *c03Harness) expectedGsfa(pk solana.PublicKey, limit int, before, until *solana.Signature) []solana.Signature {
+	eps := append([]uint64{}, h.loaded...)
+	sort.Slice(eps, func(i, j int) bool { return eps[i] > eps[j] })
+	var all []solana.Signature
+	for _, en := range eps {
+		for _, tx := range h.epochs[en].history(h, pk) {
+			all = append(all, tx.Sig)
+		}
+	}
+	if before != nil {
+		i := 0
+		for i < len(all) && all[i] != *before {
+			i++
+		}
+		if i >= len(all) {
+			all = nil
+		} else {
+			all = all[i+1:]
+		}
+	}
+	if len(all) > limit {
+		all = all[:limit]
+	}
+	if until != nil {
+		for i, g := range all {
+			if g == *until {
+				all = all[:i+1]
+				break
+			}
+		}
+	}
+	return all
+}
+
 func (h *c03Harness) execAddr(line string, w []string) {
 	via := w[1]
 	var pk solana.PublicKey
@@ -713,8 +780,29 @@ func (h *c03Harness) execAddr(line string, w []string) {
 		copy(pk[:], zz.Unhex(w[2]))
 		wrong, total := 0, 0
 		firstWrong := ""
+		limit := 1000
+		var before, until *solana.Signature
+		optJSON := ""
+		for _, x := range w[3:] {
+			switch {
+			case strings.HasPrefix(x, "limit="):
+				limit, _ = strconv.Atoi(x[6:])
+			case strings.HasPrefix(x, "before=") && x[7:] != "-":
+				var g solana.Signature
+				copy(g[:], zz.Unhex(x[7:]))
+				before = &g
+				optJSON += fmt.Sprintf(`,"before":"%s"`, g.String())
+			case strings.HasPrefix(x, "until=") && x[6:] != "-":
+				var g solana.Signature
+				copy(g[:], zz.Unhex(x[6:]))
+				until = &g
+				optJSON += fmt.Sprintf(`,"until":"%s"`, g.String())
+			}
+		}
+		want := h.expectedGsfa(pk, limit, before, until)
+		var got []solana.Signature
 		out := zz.Guard(func() string {
-			body := fmt.Sprintf(`{"jsonrpc":"2.0","id":1,"method":"getSignaturesForAddress","params":["%s",{"limit":1000}]}`, pk.String())
+			body := fmt.Sprintf(`{"jsonrpc":"2.0","id":1,"method":"getSignaturesForAddress","params":["%s",{"limit":%d%s}]}`, pk.String(), limit, optJSON)
 			_, resp := doRPC(h.handler, body)
 			var r c03RPCResp
 			if err := json.Unmarshal([]byte(resp), &r); err != nil {
@@ -750,6 +838,7 @@ func (h *c03Harness) execAddr(line string, w []string) {
 					continue
 				}
 				sum += xxhash.Sum64(sig[:])
+				got = append(got, sig)
 			}
 			if wrong > 0 {
 				return fmt.Sprintf("WRONG:%d/%d", wrong, total)
@@ -762,6 +851,30 @@ func (h *c03Harness) execAddr(line string, w []string) {
 			h.s.Count("address-answered-with-foreign-signatures")
 			h.viol(fmt.Sprintf("getSignaturesForAddress(%s) listed %d signatures, %d of them of transactions that do not mention the address (first: %s; epochs loaded %v)",
 				pk, total, wrong, firstWrong, h.loaded), "C03:gsfa-wrong-address", line)
+		}
+		if wrong == 0 && strings.HasPrefix(out, "n=") {
+			// exactly the address's own entries (ground truth of the generator over the loaded epochs, newest epoch
+			// first, newest transaction first, then before / until / limit) — as a set: the order is C07's subject
+			same := len(got) == len(want)
+			if same {
+				m := map[solana.Signature]int{}
+				for _, g := range want {
+					m[g]++
+				}
+				for _, g := range got {
+					m[g]--
+				}
+				for _, v := range m {
+					if v != 0 {
+						same = false
+					}
+				}
+			}
+			if !same {
+				h.s.Count("address-answer-differs-from-own-history")
+				h.viol(fmt.Sprintf("getSignaturesForAddress(%s, limit=%d, before=%v, until=%v) listed %d signatures, the address's own history in the loaded epochs %v gives %d",
+					pk, limit, before, until, len(got), h.loaded, len(want)), "C03:gsfa-wrong-list", line)
+			}
 		}
 		if out == "panic" {
 			h.viol(fmt.Sprintf("getSignaturesForAddress(%s) panicked: %s", pk, zz.LastPanic), "C03:gsfa-panic", line)
@@ -798,6 +911,10 @@ func (h *c03Harness) exec(line string) {
 	case "addr":
 		if len(w) >= 3 {
 			h.execAddr(line, w)
+		}
+	case "concurrent":
+		if len(w) >= 6 {
+			h.execConcurrent(line, w)
 		}
 	default:
 		h.op(line, "bad-op", false)
@@ -956,22 +1073,105 @@ func (h *c03Harness) generate(thorough bool) {
 	if thorough {
 		nb = 5000
 	}
-	eA := uint64(2 + rng.Intn(6))
-	eB := eA + 1 + uint64(rng.Intn(2))
-	for i, en := range []uint64{eA, eB} {
-		blocks := nb + rng.Intn(nb/4)
-		h.exec(fmt.Sprintf("gen epoch=%d blocks=%d maxtx=3 skip=%d nkeys=%d base=%d loaded=25 frame=0 rng=%d",
-			en, blocks, 30+rng.Intn(30), 90+rng.Intn(40), i+1, rng.U64()>>1))
-	}
-	if len(h.order) != 2 {
-		return
+	hx := hex.EncodeToString
+	// three epochs: A (oldest), C, B (newest).  A is built first; addresses X that are absent everywhere but collide
+	// in A's pubkey index are then GIVEN a real history in the newer epoch B; addresses Y that collide in B's index
+	// are given a history in the older epoch C.  [A,B] and [C,B] are the two placements "collision in the older /
+	// in the newer epoch than the one holding the real history".
+	A := uint64(2 + rng.Intn(6))
+	C, B := A+1, A+2
+	genLine := func(en uint64, blocks int, base int, extra [][]byte) {
+		line := fmt.Sprintf("gen epoch=%d blocks=%d maxtx=3 skip=%d nkeys=%d base=%d loaded=25 frame=0 rng=%d",
+			en, blocks, 30+rng.Intn(30), 90+rng.Intn(40), base, rng.U64()>>1)
+		if len(extra) > 0 {
+			var xs []string
+			for _, x := range extra {
+				xs = append(xs, hx(x))
+			}
+			line += " extra=" + strings.Join(xs, ",")
+		}
+		h.exec(line)
 	}
 	keys := map[uint64]*c03Keys{}
-	for _, en := range h.order {
-		keys[en] = h.findKeys(rng, h.epochs[en], thorough)
+	nCross := 2
+	genLine(A, nb+rng.Intn(nb/4), 1, nil)
+	if h.epochs[A] == nil {
+		return
 	}
-	A, B := h.order[0], h.order[1]
-	hx := hex.EncodeToString
+	keys[A] = h.findKeys(rng, h.epochs[A], thorough)
+	crossX := keys[A].collAddrs
+	if len(crossX) > nCross {
+		crossX = crossX[:nCross]
+	}
+	genLine(B, nb+rng.Intn(nb/4), 2, crossX)
+	if h.epochs[B] == nil {
+		return
+	}
+	keys[B] = h.findKeys(rng, h.epochs[B], thorough)
+	crossY := keys[B].collAddrs
+	if len(crossY) > nCross {
+		crossY = crossY[:nCross]
+	}
+	genLine(C, 60+rng.Intn(30), 3, crossY)
+	if h.epochs[C] == nil {
+		return
+	}
+	// the crossed placements: every limit around the size of the real history, before / until inside the history,
+	// and a `before` / `until` taken from the FOREIGN list the collision points to
+	crossed := func(histEp, collEp uint64, zs [][]byte) {
+		for _, z := range zs {
+			var pk solana.PublicKey
+			copy(pk[:], z)
+			hist := h.epochs[histEp].history(h, pk)
+			n := len(hist)
+			h.s.Add("crossed-address-history-entries", n)
+			h.s.Count(fmt.Sprintf("crossed-address:history-in-%s-epoch", map[bool]string{true: "newer", false: "older"}[histEp > collEp]))
+			h.exec(fmt.Sprintf("addr ix %d %s", histEp, hx(z)))
+			h.exec(fmt.Sprintf("addr ix %d %s", collEp, hx(z)))
+			for _, lim := range []int{1000, 1, 2, n - 1, n, n + 1, n + 5, 2 * n} {
+				if lim >= 1 {
+					h.exec(fmt.Sprintf("addr rpc %s limit=%d", hx(z), lim))
+				}
+			}
+			if n >= 3 {
+				g := func(i int) string { return hx(hist[i].Sig[:]) }
+				h.exec(fmt.Sprintf("addr rpc %s limit=1000 before=%s", hx(z), g(0)))
+				h.exec(fmt.Sprintf("addr rpc %s limit=1000 before=%s", hx(z), g(n-2)))
+				h.exec(fmt.Sprintf("addr rpc %s limit=1000 before=%s", hx(z), g(n-1)))
+				h.exec(fmt.Sprintf("addr rpc %s limit=1000 until=%s", hx(z), g(n-1)))
+				h.exec(fmt.Sprintf("addr rpc %s limit=1000 until=%s", hx(z), g(1)))
+				h.exec(fmt.Sprintf("addr rpc %s limit=2 before=%s until=%s", hx(z), g(0), g(n-1)))
+				h.exec(fmt.Sprintf("addr rpc %s limit=1000 before=%s until=%s", hx(z), g(n/2), g(n-1)))
+			}
+			// signatures of the list the collision lands on (transactions of another address of collEp)
+			var foreign []*gTx
+			if oas, err := h.epochs[collEp].pkIdx.Get(pk); err == nil {
+				if locs, _, err := h.epochs[collEp].ll.ReadWithSize(oas.Offset, oas.Size); err == nil {
+					for _, l := range locs {
+						for _, ob := range h.epochs[collEp].ge.Objs {
+							if ob.Offset == l.Offset {
+								for _, b := range h.epochs[collEp].ge.Blocks {
+									for _, tx := range b.Txs {
+										if tx.Cid == ob.Cid {
+											foreign = append(foreign, tx)
+										}
+									}
+								}
+							}
+						}
+						if len(foreign) >= 2 {
+							break
+						}
+					}
+				}
+			}
+			for _, f := range foreign {
+				h.s.Count("crossed-address:foreign-before/until")
+				h.exec(fmt.Sprintf("addr rpc %s limit=1000 before=%s", hx(z), hx(f.Sig[:])))
+				h.exec(fmt.Sprintf("addr rpc %s limit=1000 until=%s", hx(z), hx(f.Sig[:])))
+			}
+		}
+	}
 	queries := func(loaded []uint64, onlyAddr bool) {
 		for _, en := range loaded {
 			k := keys[en]
@@ -1008,7 +1208,7 @@ func (h *c03Harness) generate(thorough bool) {
 		}
 		// keys that belong to epochs which are not loaded, and keys outside every generated epoch
 		for _, en := range h.order {
-			if h.isLoaded(en) {
+			if h.isLoaded(en) || keys[en] == nil {
 				continue
 			}
 			k := keys[en]
@@ -1038,12 +1238,26 @@ func (h *c03Harness) generate(thorough bool) {
 	}
 	h.exec(fmt.Sprintf("server %d", A))
 	queries([]uint64{A}, false)
+	crossed(B, A, crossX) // B is not loaded: the address is simply absent and colliding
+	h.concurrentPhase(rng, A, keys[A], thorough)
 	h.exec(fmt.Sprintf("server %d,%d", A, B))
 	queries([]uint64{A, B}, false)
+	crossed(B, A, crossX) // real history in the newer epoch, collision in the older one
+	h.concurrentPhase(rng, A, keys[A], thorough)
 	h.exec(fmt.Sprintf("server %d", B))
 	queries([]uint64{B}, false)
+	crossed(B, A, crossX) // only the epoch with the real history is loaded
 	h.exec(fmt.Sprintf("server %d,%d sigonly", A, B))
 	queries([]uint64{A, B}, true)
+	crossed(B, A, crossX)
+	h.exec(fmt.Sprintf("server %d,%d", C, B))
+	crossed(C, B, crossY) // real history in the older epoch, collision in the newer one
+	h.exec(fmt.Sprintf("server %d,%d,%d", A, C, B))
+	crossed(B, A, crossX)
+	crossed(C, B, crossY)
+	h.exec(fmt.Sprintf("server %d,%d,%d sigonly", B, A, C))
+	crossed(B, A, crossX)
+	crossed(C, B, crossY)
 }
 
 func TestVerifC03(t *testing.T) {
